@@ -2,6 +2,7 @@ import KawinV.Proto
 import KawinV.Model.MobMatrix
 import KawinV.Model.DMuDX
 import KawinV.Gen.C10Tracer
+import KawinV.Model.MobTable
 /-! driver verbs for the mobility-matrix / dMudX / interdiffusivity models (Float instance) -/
 namespace KawinV.Drv.C10
 open KawinV.Proto KawinV.Mob KawinV.DMu
@@ -65,6 +66,73 @@ def tracer : P String := do
   let T ← flt; let c0 ← flt; let m0 ← flt; let c1 ← flt; let m1 ← flt; let c2 ← flt; let m2 ← flt
   pure s!"{flist (KawinV.Gen.C10.mobility_all T c0 m0 c1 m1 c2 m2)} {flist (KawinV.Gen.C10.tracer_all T c0 m0 c1 m1 c2 m2)}"
 
+/-! ### user-supplied callable tables (setMobility / setDiffusivity histories) -/
+section table
+open KawinV.MobTable
+
+def which : P Which := do
+  let t ← tok
+  match t with | "M" => pure Which.mob | "D" => pure Which.diff | _ => failure
+
+def pairP : P (Nat × Nat) := do let e ← nat; let f ← nat; pure (e, f)
+
+def opP : P Op := do
+  let k ← tok
+  match k with
+  | "A" => do let w ← which; let d ← lst pairP; pure (Op.setAll w d)
+  | "S" => do let w ← which; let f ← nat; pure (Op.setSame w f)
+  | "O" => do let w ← which; let e ← nat; let f ← nat; pure (Op.setOne w e f)
+  | _ => failure
+
+/-- table entry as an integer: −2 table is None, −1 no entry, else the function id -/
+def entry (t : Option Tab) (e : Nat) : Int :=
+  match t with
+  | none => -2
+  | some t => match t e with | none => -1 | some f => Int.ofNat f
+
+def readCode : Read → String
+  | .mobility f => s!"M{f}"
+  | .diffusivity f => s!"D{f}"
+  | .keyError => "K"
+  | .noCallables => "N"
+
+def optOut : Option Float → String
+  | none => "none"
+  | some x => fout x
+
+/-- value of function id `f` at temperature T: ids < 1000 are the user's Arrhenius functions
+`A·exp(−Q/(8.314·T))` (pool), 1000+e the database mobility of element e, 2000+e its database diffusivity
+(values at the evaluation point captured from the original callables) -/
+def fval (pool : Array (Float × Float)) (dbm dbd : Array Float) (f : Nat) (T : Float) : Float :=
+  if f < 1000 then
+    let (A, Q) := pool.getD f (0.0, 0.0)
+    A * Float.exp (-Q / (8.314 * T))
+  else if f < 2000 then dbm.getD (f - 1000) 0.0 else dbd.getD (f - 2000) 0.0
+
+/-- c10.table  n initMob initDiff ops pool(A Q) T corr(n) dbmob(n) dbdiff(n)
+    → per op: raised, then per element: mobEntry diffEntry read raw tracer  (after that op) -/
+def table : P String := do
+  let n ← nat; let im ← bool; let idf ← bool
+  let ops ← lst opP
+  let pool ← lst (do let a ← flt; let q ← flt; pure (a, q))
+  let T ← flt; let corr ← flts; let dbm ← flts; let dbd ← flts
+  let s0 : St := { mob := if im then some (fun e => if e < n then some (1000 + e) else none) else none,
+                   diff := if idf then some (fun e => if e < n then some (2000 + e) else none) else none }
+  let F := fval pool.toArray dbm.toArray dbd.toArray
+  let c := fn corr.toArray
+  let mut s := s0
+  let mut out : List String := []
+  for o in ops do
+    let (s', raised) := step n s o
+    s := s'
+    let cells := (List.range n).map (fun e =>
+      let r := read s e
+      s!"{entry s.mob e} {entry s.diff e} {readCode r} {optOut (rawOf F T (c e) r)} {optOut (tracerOf F 8.314 T (c e) r)}")
+    out := out ++ [bstr raised ++ " " ++ " ".intercalate cells]
+  pure (" ".intercalate out)
+
+end table
+
 def handle (verb : String) : Option (P String) :=
   match verb with
   | "c10.mob" => some mob
@@ -73,6 +141,7 @@ def handle (verb : String) : Option (P String) :=
   | "c10.inter" => some inter
   | "c10.darken" => some darkenV
   | "c10.tracer" => some tracer
+  | "c10.table" => some table
   | _ => none
 
 end KawinV.Drv.C10
